@@ -176,6 +176,8 @@ impl Prop for C19 {
         let v6 = r.chance(1, 5);
         let nconn = if r.chance(1, 3) { 2 } else { 1 };
         let mut pkts: Vec<Pkt> = vec![];
+        let twin = r.chance(1, 4);
+        let mut first_eps = (Endpoint::v4(10, 0, 0, 1, 1), Endpoint::v4(10, 0, 0, 2, 2));
         // rates: boundary and OS-typical values, every integer now and then, and out-of-range ones
         let pick_rate = |r: &mut Rng| -> f64 {
             match r.below(10) {
@@ -193,6 +195,22 @@ impl Prop for C19 {
             let cport = if r.chance(1, 8) { 1000 } else { 40000 + r.below(1000) as u16 + ci as u16 * 1000 };
             let sport = *r.pick(&[80u16, 443, 22, 1024, 1025, 8080, 8443]);
             let (c, s) = if v6 { (Endpoint::v6(1, cport), Endpoint::v6(2, sport)) } else { (Endpoint::v4(10, 0, 0, 1, cport), Endpoint::v4(10, 0, 0, 2, sport)) };
+            // the second connection is sometimes the IPv4-mapped IPv6 twin of the first (same ports, ::ffff:a.b.c.d):
+            // a different connection that must be tracked separately
+            let (c, s) = if ci == 1 && !v6 && twin {
+                let m = |e: &Endpoint, base: &Endpoint| -> Endpoint {
+                    match base.ip {
+                        std::net::IpAddr::V4(a) => Endpoint { ip: std::net::IpAddr::V6(a.to_ipv6_mapped()), port: e.port },
+                        _ => *e,
+                    }
+                };
+                (m(&first_eps.0, &first_eps.0), m(&first_eps.1, &first_eps.1))
+            } else {
+                (c, s)
+            };
+            if ci == 0 {
+                first_eps = (c, s);
+            }
             let rate_c = pick_rate(r);
             let rate_s = pick_rate(r);
             // per-host clock behaviour
